@@ -134,3 +134,5 @@ pub fn generate(out: &mut Out, tier: &str, seed: u64) {
 }
 
 pub const RULE: &str = "texts of length 0..=12 (thorough 16) over an alphabet with 1-, 2-, 3- and 4-byte characters; every codepoint position 0..=len+2 and every byte offset 0..=bytes+2 on the resource, and the relative conversions + text on sub-selections (3 random ones per text; thorough: a third of all sub-ranges), each under milestone_interval in {0,1,2,3,7,100} x shrink_to_fit on/off x before/after random annotations populated the position index. One evaluation = one conversion. Non-trivial = text contains a multi-byte character; distinct = distinct (interval, text, annotations, selections) inputs.";
+
+pub const EXHAUSTIVE: bool = false;
